@@ -33,8 +33,8 @@ def offered : List Ev → Bytes
 
 /-- The property's first sentence, for the whole life of a tunnel (FALSE of the code as it is). -/
 def TransparentForLife : Prop :=
-  ∀ (cfg : Cfg) (ahead early : Bytes) (up down : List Ev),
-    bytesOf (handleConnect cfg (.ok ahead) early up down).toTarget = early ++ offered up
+  ∀ (cfg : Cfg) (st : Nat) (ahead early : Bytes) (up down : List Ev),
+    bytesOf (handleConnect cfg (.answered st ahead) early up down).toTarget = early ++ offered up
 
 theorem offered_eq_sentBy_of_no_deadline (evs : List Ev) (h : Ev.deadline ∉ evs) :
     offered evs = sentBy evs := by
@@ -52,18 +52,18 @@ theorem offered_eq_sentBy_of_no_deadline (evs : List Ev) (h : Ev.deadline ∉ ev
 
 /-- Partial: as long as the serving loop's deadline has not passed (the tunnel is younger than
 `p.timeout`), every byte the client hands to the tunnel is forwarded. -/
-theorem transparent_for_life_partial (cfg : Cfg) (ahead early : Bytes) (up down : List Ev)
+theorem transparent_for_life_partial (cfg : Cfg) (st : Nat) (ahead early : Bytes) (up down : List Ev)
     (h : Ev.deadline ∉ up) :
-    bytesOf (handleConnect cfg (.ok ahead) early up down).toTarget = early ++ offered up := by
+    bytesOf (handleConnect cfg (.answered st ahead) early up down).toTarget = early ++ offered up := by
   rw [offered_eq_sentBy_of_no_deadline up h]
   simp [handleConnect, handleConnectWith, upPump, run_bytes]
 
 /-- What happens at the deadline, for every busy tunnel: the target has been forwarded exactly what
 was sent before it, is told end-of-stream although the client has not finished, and nothing the
 client sends afterwards (`post`) arrives. -/
-theorem deadline_cuts_a_busy_tunnel (cfg : Cfg) (ahead early : Bytes) (pre post down : List Ev)
+theorem deadline_cuts_a_busy_tunnel (cfg : Cfg) (st : Nat) (ahead early : Bytes) (pre post down : List Ev)
     (hp : closes pre = false) :
-    let o := handleConnect cfg (.ok ahead) early (pre ++ .deadline :: post) down
+    let o := handleConnect cfg (.answered st ahead) early (pre ++ .deadline :: post) down
     bytesOf o.toTarget = early ++ sentBy pre ∧ eofSeen o.toTarget = true := by
   have hc : closes (pre ++ .deadline :: post) = true :=
     (closes_iff_exists_ending _).2 ⟨.deadline, by simp, rfl⟩
@@ -76,8 +76,8 @@ theorem deadline_cuts_a_busy_tunnel (cfg : Cfg) (ahead early : Bytes) (pre post 
 only then finishes — the target is forwarded `[1]` alone. -/
 theorem transparent_for_life_counterexample : ¬ TransparentForLife := by
   intro h
-  have h1 := h ⟨⟨true, true⟩, ⟨true, true⟩⟩ [] [] [.data [1], .deadline, .data [2], .eof] []
-  have h2 := (deadline_cuts_a_busy_tunnel ⟨⟨true, true⟩, ⟨true, true⟩⟩ [] [] [.data [1]] [.data [2], .eof] []
+  have h1 := h ⟨⟨true, true⟩, ⟨true, true⟩⟩ 200 [] [] [.data [1], .deadline, .data [2], .eof] []
+  have h2 := (deadline_cuts_a_busy_tunnel ⟨⟨true, true⟩, ⟨true, true⟩⟩ 200 [] [] [.data [1]] [.data [2], .eof] []
     (by simp [closes, endOf, Ev.ending])).1
   simp only [List.cons_append, List.nil_append] at h2
   rw [h2] at h1
